@@ -1,6 +1,9 @@
 # pid, technique, level text, level note, design ref -- consumed by tools/gen_manifest.py
 COMMON_NOTE = (' Exploration jobs run in freshly forked processes; a case failing only after the preceding cases of its job is '
-               'reported with the job as replay. Bounds completed and caps hit are in the evidence file.')
+               'reported with the job as replay (re-run in a new interpreter). Bounds completed and caps hit are in the evidence file. '
+               'Thorough tier: deeper bounds for C04, C06, C08, C11, C13, C16-C20; for the other checks the thorough command runs the '
+               'quick bounds on a second seed set (DESIGN.md 8.11), figures in parentheses marked "thorough" describe bounds present '
+               'in the code but not used by a registered command.')
 
 check(
     'C01',
